@@ -249,6 +249,12 @@ Definition enter_reserve_base (vid bid : id) (s : Sim) : res Sim :=
            end
   end.
 
+(* DispatchStation._vehicle_can_use_charger *)
+Definition vehicle_can_use_charger (v : Vehicle) (st : Station) (cid : id) : bool :=
+  match e_mech env (v_mech v), get_charger_instance st cid with
+  | Some m, Ok c => mech_valid_charger m c
+  | _, _ => true     (* unknown powertrain / plug type: left to the checks made on arrival *)
+  end.
 Definition enter_dispatch_station (vid sid cid : id) (route : Route) (s : Sim) : res Sim :=
   match find vid (vehicles s), find sid (stations s) with
   | None, _ => Err
@@ -257,6 +263,7 @@ Definition enter_dispatch_station (vid sid cid : id) (route : Route) (s : Sim) :
       if Pos.eqb (s_geoid st) (v_geoid v) then enter_charging_station vid sid cid s
       else if negb (route_corr route (v_pos v) (Some (s_pos st))) then Reject
       else if negb (grant_access_to_membership (s_mem st) (v_mem v)) then Err
+      else if negb (vehicle_can_use_charger v st cid) then Err
       else apply_new_vehicle_state s vid (DispatchStation sid cid route)
   end.
 
